@@ -2,6 +2,7 @@
 #include "common.hpp"
 
 #include <chrono>
+#include <tuple>
 #include <etl/chrono.hpp>
 
 namespace ec = etl::chrono;
@@ -17,12 +18,201 @@ static void ymd_out(Out& o, sc::year_month_day const& x)
     o.tok("ok").num(static_cast<int>(x.year())).num(static_cast<unsigned>(x.month())).num(static_cast<unsigned>(x.day()));
 }
 
+
+// ---- the calendar types, once for etl::chrono (impl) and once for std::chrono (reference) ----
+#define CAL_TRAITS(NAME, NS)                                                                                           \
+    struct NAME {                                                                                                      \
+        using year = NS::year; using month = NS::month; using day = NS::day; using weekday = NS::weekday;              \
+        using years = NS::years; using months = NS::months; using days = NS::days;                                     \
+        using sys_days = NS::sys_days; using local_days = NS::local_days;                                              \
+        using year_month = NS::year_month; using year_month_day = NS::year_month_day;                                  \
+        using year_month_day_last = NS::year_month_day_last; using month_day = NS::month_day;                          \
+        using month_day_last = NS::month_day_last; using weekday_indexed = NS::weekday_indexed;                        \
+        using weekday_last = NS::weekday_last; using month_weekday = NS::month_weekday;                                \
+        using month_weekday_last = NS::month_weekday_last; using year_month_weekday = NS::year_month_weekday;          \
+        using year_month_weekday_last = NS::year_month_weekday_last;                                                   \
+        static constexpr auto last = NS::last;                                                                         \
+    }
+CAL_TRAITS(E, ec);
+CAL_TRAITS(S, sc);
+
+// one sub-result with its own contract guard: value tokens or the single token "contract"
+template <typename F>
+static void part(Out& o, F&& f)
+{
+    Out t;
+    guarded(t, f);
+    o.tok(t.s);
+}
+static bool yr_in(i64 y) { return y >= -32767 && y <= 32767; }
+template <typename T> static i64 cnt(T const& tp) { return static_cast<i64>(tp.time_since_epoch().count()); }
+template <typename Y> static Out& yo(Out& o, Y const& y) { return o.num(static_cast<int>(y)); }
+template <typename M> static Out& uo(Out& o, M const& m) { return o.num(static_cast<unsigned>(m)); }
+
+template <typename C>
+static void year_arith(Out& o, int y0, int dy)
+{
+    using year = typename C::year; using years = typename C::years;
+    auto const c = year{y0};
+    o.tok("ok"); yo(o, c); o.b(c.ok());
+    { auto a = c; auto r = ++a; yo(o, r); yo(o, a); }
+    { auto a = c; auto r = a++; yo(o, r); yo(o, a); }
+    { auto a = c; auto r = --a; yo(o, r); yo(o, a); }
+    { auto a = c; auto r = a--; yo(o, r); yo(o, a); }
+    { auto a = c; a += years{dy}; yo(o, a); }
+    { auto a = c; a -= years{dy}; yo(o, a); }
+    yo(o, -c); yo(o, +c); yo(o, c + years{dy}); yo(o, years{dy} + c); yo(o, c - years{dy});
+}
+template <typename T>
+static void cmp6(Out& o, T const& a, T const& b)
+{
+    o.b(a == b).b(a != b).b(a < b).b(a <= b).b(a > b).b(a >= b);
+}
+template <typename C>
+static void month_arith(Out& o, unsigned m0, int dm)
+{
+    using month = typename C::month; using months = typename C::months;
+    auto const m = month{m0};
+    o.tok("ok").b(m.ok());
+    uo(o, m + months{dm}); uo(o, months{dm} + m); uo(o, m - months{dm});
+    { auto a = m; a += months{dm}; uo(o, a); }
+    { auto a = m; a -= months{dm}; uo(o, a); }
+    { auto a = m; auto r = ++a; uo(o, r); uo(o, a); }
+    { auto a = m; auto r = a++; uo(o, r); uo(o, a); }
+    { auto a = m; auto r = --a; uo(o, r); uo(o, a); }
+    { auto a = m; auto r = a--; uo(o, r); uo(o, a); }
+}
+template <typename C>
+static void day_assign(Out& o, unsigned d0, int dd)
+{
+    using day = typename C::day; using days = typename C::days;
+    auto const d = day{d0};
+    o.tok("ok");
+    { auto a = d; a += days{dd}; uo(o, a); }
+    { auto a = d; a -= days{dd}; uo(o, a); }
+    { auto a = d; auto r = ++a; uo(o, r); uo(o, a); }
+    { auto a = d; auto r = a++; uo(o, r); uo(o, a); }
+    { auto a = d; auto r = --a; uo(o, r); uo(o, a); }
+    { auto a = d; auto r = a--; uo(o, r); uo(o, a); }
+    o.b(d.ok());
+}
+template <typename C>
+static void wd_misc(Out& o, unsigned w, unsigned idx)
+{
+    using weekday = typename C::weekday;
+    auto const x = weekday{w};
+    o.tok("ok").num(x.c_encoding()).num(x.iso_encoding()).b(x.ok());
+    auto const wi = x[idx];
+    o.num(wi.weekday().c_encoding()).num(wi.index()).b(wi.ok());
+    auto const wl = x[C::last];
+    o.num(wl.weekday().c_encoding()).b(wl.ok());
+}
+// x + months, months + x, x - months, x += , x -= (and the same with years): every route must agree
+template <typename C, typename X, typename Same>
+static void ym_routes(Out& o, X const& x, int dm, int dy, bool with_months, Same same)
+{
+    using months = typename C::months; using years = typename C::years;
+    auto show = [&](X const& r) { yo(o, r.year()); uo(o, r.month()); if (!same(r, x)) { o.tok("payload-changed"); } };
+    auto eqym = [](X const& a, X const& b) { return a.year() == b.year() && a.month() == b.month(); };
+    if (with_months) {
+        auto r = x + months{dm}; auto r2 = months{dm} + x; auto r3 = x; r3 += months{dm};
+        if (!eqym(r, r2) || !eqym(r, r3)) { o.tok("routes-differ"); }
+        show(r);
+        auto s = x - months{dm}; auto s2 = x; s2 -= months{dm};
+        if (!eqym(s, s2)) { o.tok("routes-differ"); }
+        show(s);
+    }
+    auto r = x + years{dy}; auto r2 = years{dy} + x; auto r3 = x; r3 += years{dy};
+    if (!eqym(r, r2) || !eqym(r, r3)) { o.tok("routes-differ"); }
+    show(r);
+    auto s = x - years{dy}; auto s2 = x; s2 -= years{dy};
+    if (!eqym(s, s2)) { o.tok("routes-differ"); }
+    show(s);
+}
+template <typename C>
+static void ymd_arith(Out& o, int y, unsigned m, unsigned d, int dm, int dy)
+{
+    using months = typename C::months; using years = typename C::years;
+    auto const x = typename C::year_month_day{typename C::year{y}, typename C::month{m}, typename C::day{d}};
+    auto show = [&](typename C::year_month_day const& r) { yo(o, r.year()); uo(o, r.month()); uo(o, r.day()); o.b(r.ok()); };
+    o.tok("ok");
+    { auto r = x + months{dm}; auto r2 = months{dm} + x; auto r3 = x; r3 += months{dm};
+      if (!(r == r2) || !(r == r3)) { o.tok("routes-differ"); } show(r); }
+    { auto r = x - months{dm}; auto r3 = x; r3 -= months{dm};
+      if (!(r == r3)) { o.tok("routes-differ"); } show(r); }
+    { auto r = x + years{dy}; auto r2 = years{dy} + x; auto r3 = x; r3 += years{dy};
+      if (!(r == r2) || !(r == r3)) { o.tok("routes-differ"); } show(r); }
+    { auto r = x - years{dy}; auto r3 = x; r3 -= years{dy};
+      if (!(r == r3)) { o.tok("routes-differ"); } show(r); }
+}
+template <typename C>
+static void eq_all(Out& o, int const* a, int const* b)
+{
+    using year = typename C::year; using month = typename C::month; using day = typename C::day; using weekday = typename C::weekday;
+    auto mk = [](int const* v) {
+        return std::make_tuple(year{v[0]}, month{static_cast<unsigned>(v[1])}, day{static_cast<unsigned>(v[2])},
+            weekday{static_cast<unsigned>(v[2])}, static_cast<unsigned>(v[3]));
+    };
+    auto [y1, m1, d1, w1, i1] = mk(a);
+    auto [y2, m2, d2, w2, i2] = mk(b);
+    auto pr = [&](auto const& l, auto const& r) { o.b(l == r).b(l != r); };
+    o.tok("ok");
+    pr(typename C::year_month{y1, m1}, typename C::year_month{y2, m2});
+    pr(typename C::year_month_day{y1, m1, d1}, typename C::year_month_day{y2, m2, d2});
+    pr(typename C::month_day{m1, d1}, typename C::month_day{m2, d2});
+    pr(typename C::month_day_last{m1}, typename C::month_day_last{m2});
+    pr(typename C::year_month_day_last{y1, typename C::month_day_last{m1}}, typename C::year_month_day_last{y2, typename C::month_day_last{m2}});
+    pr(w1, w2);
+    pr(w1[i1], w2[i2]);
+    pr(w1[C::last], w2[C::last]);
+    pr(typename C::month_weekday{m1, w1[i1]}, typename C::month_weekday{m2, w2[i2]});
+    pr(typename C::month_weekday_last{m1, w1[C::last]}, typename C::month_weekday_last{m2, w2[C::last]});
+    pr(typename C::year_month_weekday{y1, m1, w1[i1]}, typename C::year_month_weekday{y2, m2, w2[i2]});
+    pr(typename C::year_month_weekday_last{y1, m1, w1[C::last]}, typename C::year_month_weekday_last{y2, m2, w2[C::last]});
+}
+// every operator/ spelling of the same date / partial date must build the same object
+template <typename C>
+static void slash(Out& o, int yi, unsigned mu, unsigned du)
+{
+    using year = typename C::year; using month = typename C::month; using day = typename C::day;
+    auto const y = year{yi}; auto const m = month{mu}; auto const d = day{du};
+    auto const mi = static_cast<int>(mu); auto const di = static_cast<int>(du);
+    auto const last = C::last;
+    bool same = true;
+    auto const ym = y / m;
+    same = same && ym == y / mi && ym == typename C::year_month{y, m};
+    auto const md = m / d;
+    same = same && md == m / di && md == mi / d && md == d / m && md == d / mi;
+    auto const mdl = m / last;
+    same = same && mdl == mi / last && mdl == last / m && mdl == last / mi;
+    auto const ymd = ym / d;
+    same = same && ymd == ym / di && ymd == y / md && ymd == yi / md && ymd == md / y && ymd == md / yi;
+    auto const ymdl = ym / last;
+    same = same && ymdl == y / mdl && ymdl == yi / mdl && ymdl == mdl / y && ymdl == mdl / yi;
+    auto const wdi = typename C::weekday{du}[2];
+    auto const mwd = m / wdi;
+    same = same && mwd == mi / wdi && mwd == wdi / m && mwd == wdi / mi;
+    auto const wdl = typename C::weekday{du}[last];
+    auto const mwdl = m / wdl;
+    same = same && mwdl == mi / wdl && mwdl == wdl / m && mwdl == wdl / mi;
+    if (!same) { o.tok("routes-differ"); }
+    o.tok("ok"); yo(o, ymd.year()); uo(o, ymd.month()); uo(o, ymd.day());
+    yo(o, ymdl.year()); uo(o, ymdl.month()); uo(o, mwd.month()); uo(o, mwdl.month());
+}
+
+static bool run_case2(std::string const& op, Toks& in, Out& impl, Out& ref);
+
 bool vh::run_case(std::string const& op, Toks& in, Out& impl, Out& ref)
 {
     if (op == "civil" || op == "next_day") {
         auto z = static_cast<int>(in.num());
         if (op == "next_day") { z += 1; }
-        guarded(impl, [&](Out& o) { ymd_out(o, ec::year_month_day{ec::sys_days{ec::days{z}}}); });
+        guarded(impl, [&](Out& o) {
+            auto const a = ec::year_month_day{ec::sys_days{ec::days{z}}};
+            auto const b = ec::year_month_day{ec::local_days{ec::days{z}}};
+            if (!(a == b) || a != b) { o.tok("routes-differ"); }
+            ymd_out(o, a);
+        });
         ymd_out(ref, sc::year_month_day{sc::sys_days{sc::days{z}}});
         return true;
     }
@@ -42,6 +232,7 @@ bool vh::run_case(std::string const& op, Toks& in, Out& impl, Out& ref)
         auto z = static_cast<int>(in.num());
         guarded(impl, [&](Out& o) {
             auto x = ec::year_month_day{ec::sys_days{ec::days{z}}};
+            if (static_cast<ec::local_days>(x).time_since_epoch().count() != static_cast<ec::sys_days>(x).time_since_epoch().count()) { o.tok("routes-differ"); }
             o.tok("ok").num(static_cast<ec::sys_days>(x).time_since_epoch().count());
         });
         ref.tok("ok").num(static_cast<sc::sys_days>(sc::year_month_day{sc::sys_days{sc::days{z}}}).time_since_epoch().count());
@@ -49,7 +240,10 @@ bool vh::run_case(std::string const& op, Toks& in, Out& impl, Out& ref)
     }
     if (op == "weekday") {
         auto z = static_cast<int>(in.num());
-        guarded(impl, [&](Out& o) { o.tok("ok").num(ec::weekday{ec::sys_days{ec::days{z}}}.c_encoding()); });
+        guarded(impl, [&](Out& o) {
+            if (!(ec::weekday{ec::local_days{ec::days{z}}} == ec::weekday{ec::sys_days{ec::days{z}}})) { o.tok("routes-differ"); }
+            o.tok("ok").num(ec::weekday{ec::sys_days{ec::days{z}}}.c_encoding());
+        });
         ref.tok("ok").num(sc::weekday{sc::sys_days{sc::days{z}}}.c_encoding());
         return true;
     }
@@ -164,6 +358,258 @@ bool vh::run_case(std::string const& op, Toks& in, Out& impl, Out& ref)
         auto b = static_cast<unsigned>(in.num());
         guarded(impl, [&](Out& o) { o.tok("ok").num((ec::weekday{a} - ec::weekday{b}).count()); });
         ref.tok("ok").num((sc::weekday{a} - sc::weekday{b}).count());
+        return true;
+    }
+    return run_case2(op, in, impl, ref);
+}
+
+static bool run_case2(std::string const& op, Toks& in, Out& impl, Out& ref)
+{
+    if (op == "year_arith") {
+        auto y = static_cast<int>(in.num()); auto dy = static_cast<int>(in.num());
+        guarded(impl, [&](Out& o) { year_arith<E>(o, y, dy); });
+        i64 Y = y, D = dy;
+        if (yr_in(Y) && yr_in(Y + 1) && yr_in(Y - 1) && yr_in(Y + D) && yr_in(Y - D)) { year_arith<S>(ref, y, dy); }
+        return true;
+    }
+    if (op == "year_cmp") {
+        auto a = static_cast<int>(in.num()); auto b = static_cast<int>(in.num());
+        guarded(impl, [&](Out& o) { o.tok("ok"); cmp6(o, ec::year{a}, ec::year{b}); o.num((ec::year{a} - ec::year{b}).count()); });
+        ref.tok("ok"); cmp6(ref, sc::year{a}, sc::year{b}); ref.num((sc::year{a} - sc::year{b}).count());
+        return true;
+    }
+    if (op == "month_arith") {
+        auto m = static_cast<unsigned>(in.num()); auto dm = static_cast<int>(in.num());
+        guarded(impl, [&](Out& o) { month_arith<E>(o, m, dm); });
+        month_arith<S>(ref, m, dm);
+        return true;
+    }
+    if (op == "month_cmp") {
+        auto a = static_cast<unsigned>(in.num()); auto b = static_cast<unsigned>(in.num());
+        guarded(impl, [&](Out& o) { o.tok("ok"); cmp6(o, ec::month{a}, ec::month{b}); });
+        ref.tok("ok"); cmp6(ref, sc::month{a}, sc::month{b});
+        return true;
+    }
+    if (op == "mctor" || op == "mctor_max") {
+        auto m = static_cast<unsigned>(in.num());
+        guarded(impl, [&](Out& o) { o.tok("ok"); uo(o, ec::month{m}); });
+        if (m <= 255) { ref.tok("ok"); uo(ref, sc::month{m}); }
+        return true;
+    }
+    if (op == "dctor" || op == "dctor_max") {
+        auto d = static_cast<unsigned>(in.num());
+        guarded(impl, [&](Out& o) { o.tok("ok"); uo(o, ec::day{d}); });
+        if (d <= 255) { ref.tok("ok"); uo(ref, sc::day{d}); }
+        return true;
+    }
+    if (op == "day_plus" || op == "day_plus_max") {
+        auto d = static_cast<unsigned>(in.num()); auto dd = static_cast<int>(in.num());
+        impl.tok("ok");
+        part(impl, [&](Out& o) { uo(o, ec::day{d} + ec::days{dd}); });
+        part(impl, [&](Out& o) { uo(o, ec::days{dd} + ec::day{d}); });
+        i64 r = static_cast<i64>(d) + dd;
+        if (r >= 0 && r <= 255) { ref.tok("ok"); uo(ref, sc::day{d} + sc::days{dd}); uo(ref, sc::days{dd} + sc::day{d}); }
+        return true;
+    }
+    if (op == "day_minus" || op == "day_minus_max") {
+        auto d = static_cast<unsigned>(in.num()); auto dd = static_cast<int>(in.num());
+        impl.tok("ok");
+        part(impl, [&](Out& o) { uo(o, ec::day{d} - ec::days{dd}); });
+        i64 r = static_cast<i64>(d) - dd;
+        if (r >= 0 && r <= 255) { ref.tok("ok"); uo(ref, sc::day{d} - sc::days{dd}); }
+        return true;
+    }
+    if (op == "day_assign") {
+        auto d = static_cast<unsigned>(in.num()); auto dd = static_cast<int>(in.num());
+        guarded(impl, [&](Out& o) { day_assign<E>(o, d, dd); });
+        i64 D = d, X = dd;
+        auto in8 = [](i64 v) { return v >= 0 && v <= 255; };
+        if (in8(D + X) && in8(D - X) && in8(D + 1) && in8(D - 1)) { day_assign<S>(ref, d, dd); }
+        return true;
+    }
+    if (op == "day_cmp") {
+        auto a = static_cast<unsigned>(in.num()); auto b = static_cast<unsigned>(in.num());
+        guarded(impl, [&](Out& o) { o.tok("ok"); cmp6(o, ec::day{a}, ec::day{b}); o.num((ec::day{a} - ec::day{b}).count()); });
+        ref.tok("ok"); cmp6(ref, sc::day{a}, sc::day{b}); ref.num((sc::day{a} - sc::day{b}).count());
+        return true;
+    }
+    if (op == "wd_misc") {
+        auto w = static_cast<unsigned>(in.num()); auto idx = static_cast<unsigned>(in.num());
+        guarded(impl, [&](Out& o) { wd_misc<E>(o, w, idx); });
+        if (idx <= 7) { wd_misc<S>(ref, w, idx); }
+        return true;
+    }
+    if (op == "md_ok") {
+        auto m = static_cast<unsigned>(in.num()); auto d = static_cast<unsigned>(in.num());
+        guarded(impl, [&](Out& o) {
+            o.tok("ok").b(ec::month_day{ec::month{m}, ec::day{d}}.ok()).b(ec::month_day_last{ec::month{m}}.ok());
+        });
+        ref.tok("ok").b(sc::month_day{sc::month{m}, sc::day{d}}.ok()).b(sc::month_day_last{sc::month{m}}.ok());
+        return true;
+    }
+    if (op == "mwd_ok") {
+        auto m = static_cast<unsigned>(in.num()); auto w = static_cast<unsigned>(in.num()); auto idx = static_cast<unsigned>(in.num());
+        guarded(impl, [&](Out& o) {
+            o.tok("ok").b(ec::month_weekday{ec::month{m}, ec::weekday{w}[idx]}.ok())
+                .b(ec::month_weekday_last{ec::month{m}, ec::weekday{w}[ec::last]}.ok());
+        });
+        if (idx <= 7) {
+            ref.tok("ok").b(sc::month_weekday{sc::month{m}, sc::weekday{w}[idx]}.ok())
+                .b(sc::month_weekday_last{sc::month{m}, sc::weekday{w}[sc::last]}.ok());
+        }
+        return true;
+    }
+    if (op == "ym_years") {
+        auto y = static_cast<int>(in.num()); auto m = static_cast<unsigned>(in.num()); auto dy = static_cast<int>(in.num());
+        auto same = [](auto const&, auto const&) { return true; };
+        guarded(impl, [&](Out& o) {
+            auto x = ec::year_month{ec::year{y}, ec::month{m}};
+            o.tok("ok").b(x.ok());
+            ym_routes<E>(o, x, 0, dy, false, same);
+        });
+        if (yr_in(y) && yr_in(i64{y} + dy) && yr_in(i64{y} - dy)) {
+            auto x = sc::year_month{sc::year{y}, sc::month{m}};
+            ref.tok("ok").b(x.ok());
+            ym_routes<S>(ref, x, 0, dy, false, same);
+        }
+        return true;
+    }
+    if (op == "ymd_arith") {
+        auto y = static_cast<int>(in.num()); auto m = static_cast<unsigned>(in.num()); auto d = static_cast<unsigned>(in.num());
+        auto dm = static_cast<int>(in.num()); auto dy = static_cast<int>(in.num());
+        guarded(impl, [&](Out& o) { ymd_arith<E>(o, y, m, d, dm, dy); });
+        auto fl = [](i64 a, i64 b) { return (a >= 0 ? a : a - (b - 1)) / b; };
+        i64 M = i64{m} - 1;
+        if (yr_in(y) && yr_in(y + fl(M + dm, 12)) && yr_in(y + fl(M - dm, 12)) && yr_in(i64{y} + dy) && yr_in(i64{y} - dy)) {
+            ymd_arith<S>(ref, y, m, d, dm, dy);
+        }
+        return true;
+    }
+    if (op == "ymdl") {
+        auto y = static_cast<int>(in.num()); auto m = static_cast<unsigned>(in.num());
+        guarded(impl, [&](Out& o) {
+            auto x = ec::year_month_day_last{ec::year{y}, ec::month_day_last{ec::month{m}}};
+            auto v = ec::year_month_day{x};
+            o.tok("ok").b(x.ok()); uo(o, x.day()); yo(o, v.year()); uo(o, v.month()); uo(o, v.day());
+            o.num(cnt(static_cast<ec::sys_days>(x))).num(cnt(static_cast<ec::local_days>(x)));
+        });
+        {
+            auto x = sc::year_month_day_last{sc::year{y}, sc::month_day_last{sc::month{m}}};
+            auto v = sc::year_month_day{x};
+            ref.tok("ok").b(x.ok()); uo(ref, x.day()); yo(ref, v.year()); uo(ref, v.month()); uo(ref, v.day());
+            ref.num(cnt(static_cast<sc::sys_days>(x))).num(cnt(static_cast<sc::local_days>(x)));
+        }
+        return true;
+    }
+    if (op == "ymdl_ok") {
+        auto y = static_cast<int>(in.num()); auto m = static_cast<unsigned>(in.num());
+        guarded(impl, [&](Out& o) { o.tok("ok").b(ec::year_month_day_last{ec::year{y}, ec::month_day_last{ec::month{m}}}.ok()); });
+        ref.tok("ok").b(sc::year_month_day_last{sc::year{y}, sc::month_day_last{sc::month{m}}}.ok());
+        return true;
+    }
+    if (op == "ymdl_arith" || op == "ymwd_arith" || op == "ymwdl_arith") {
+        auto y = static_cast<int>(in.num()); auto m = static_cast<unsigned>(in.num());
+        unsigned w = 0; unsigned idx = 1;
+        if (op != "ymdl_arith") { w = static_cast<unsigned>(in.num()); }
+        if (op == "ymwd_arith") { idx = static_cast<unsigned>(in.num()); }
+        auto dm = static_cast<int>(in.num()); auto dy = static_cast<int>(in.num());
+        auto fl = [](i64 a, i64 b) { return (a >= 0 ? a : a - (b - 1)) / b; };
+        i64 M = i64{m} - 1;
+        bool inr = yr_in(y) && yr_in(y + fl(M + dm, 12)) && yr_in(y + fl(M - dm, 12)) && yr_in(i64{y} + dy) && yr_in(i64{y} - dy);
+        if (op == "ymdl_arith") {
+            auto same = [](auto const& a, auto const& b) { return a.month_day_last() == b.month_day_last() || true; };
+            guarded(impl, [&](Out& o) { o.tok("ok"); ym_routes<E>(o, ec::year_month_day_last{ec::year{y}, ec::month_day_last{ec::month{m}}}, dm, dy, true, same); });
+            if (inr) { ref.tok("ok"); ym_routes<S>(ref, sc::year_month_day_last{sc::year{y}, sc::month_day_last{sc::month{m}}}, dm, dy, true, same); }
+        } else if (op == "ymwd_arith") {
+            auto same = [](auto const& a, auto const& b) { return a.weekday_indexed() == b.weekday_indexed(); };
+            guarded(impl, [&](Out& o) { o.tok("ok"); ym_routes<E>(o, ec::year_month_weekday{ec::year{y}, ec::month{m}, ec::weekday{w}[idx]}, dm, dy, true, same); });
+            if (inr) { ref.tok("ok"); ym_routes<S>(ref, sc::year_month_weekday{sc::year{y}, sc::month{m}, sc::weekday{w}[idx]}, dm, dy, true, same); }
+        } else {
+            auto same = [](auto const& a, auto const& b) { return a.weekday_last() == b.weekday_last(); };
+            guarded(impl, [&](Out& o) { o.tok("ok"); ym_routes<E>(o, ec::year_month_weekday_last{ec::year{y}, ec::month{m}, ec::weekday{w}[ec::last]}, dm, dy, true, same); });
+            if (inr) { ref.tok("ok"); ym_routes<S>(ref, sc::year_month_weekday_last{sc::year{y}, sc::month{m}, sc::weekday{w}[sc::last]}, dm, dy, true, same); }
+        }
+        return true;
+    }
+    if (op == "ymwd_ok") {
+        auto y = static_cast<int>(in.num()); auto m = static_cast<unsigned>(in.num());
+        auto w = static_cast<unsigned>(in.num()); auto idx = static_cast<unsigned>(in.num());
+        guarded(impl, [&](Out& o) { o.tok("ok").b(ec::year_month_weekday{ec::year{y}, ec::month{m}, ec::weekday{w}[idx]}.ok()); });
+        if (idx <= 7) { ref.tok("ok").b(sc::year_month_weekday{sc::year{y}, sc::month{m}, sc::weekday{w}[idx]}.ok()); }
+        return true;
+    }
+    if (op == "ymwd_from") {
+        auto z = static_cast<int>(in.num());
+        guarded(impl, [&](Out& o) {
+            auto x = ec::year_month_weekday{ec::sys_days{ec::days{z}}};
+            auto x2 = ec::year_month_weekday{ec::local_days{ec::days{z}}};
+            if (!(x == x2) || cnt(static_cast<ec::local_days>(x)) != cnt(static_cast<ec::sys_days>(x))) { o.tok("routes-differ"); }
+            o.tok("ok"); yo(o, x.year()); uo(o, x.month()); o.num(x.weekday().c_encoding()).num(x.index()).b(x.ok());
+            o.num(cnt(static_cast<ec::sys_days>(x)));
+        });
+        {
+            auto x = sc::year_month_weekday{sc::sys_days{sc::days{z}}};
+            ref.tok("ok"); yo(ref, x.year()); uo(ref, x.month()); ref.num(x.weekday().c_encoding()).num(x.index()).b(x.ok());
+            ref.num(cnt(static_cast<sc::sys_days>(x)));
+        }
+        return true;
+    }
+    if (op == "ymwd_to") {
+        auto y = static_cast<int>(in.num()); auto m = static_cast<unsigned>(in.num());
+        auto w = static_cast<unsigned>(in.num()); auto idx = static_cast<unsigned>(in.num());
+        guarded(impl, [&](Out& o) {
+            auto x = ec::year_month_weekday{ec::year{y}, ec::month{m}, ec::weekday{w}[idx]};
+            o.tok("ok").num(cnt(static_cast<ec::sys_days>(x))).num(cnt(static_cast<ec::local_days>(x)));
+        });
+        if (idx <= 7) {
+            auto x = sc::year_month_weekday{sc::year{y}, sc::month{m}, sc::weekday{w}[idx]};
+            ref.tok("ok").num(cnt(static_cast<sc::sys_days>(x))).num(cnt(static_cast<sc::local_days>(x)));
+        }
+        return true;
+    }
+    if (op == "ymwdl") {
+        auto y = static_cast<int>(in.num()); auto m = static_cast<unsigned>(in.num()); auto w = static_cast<unsigned>(in.num());
+        guarded(impl, [&](Out& o) {
+            auto x = ec::year_month_weekday_last{ec::year{y}, ec::month{m}, ec::weekday{w}[ec::last]};
+            o.tok("ok").b(x.ok()).num(cnt(static_cast<ec::sys_days>(x))).num(cnt(static_cast<ec::local_days>(x)));
+            if (!(x.year() == ec::year{y}) || !(x.month() == ec::month{m}) || !(x.weekday() == ec::weekday{w}) || !(x.weekday_last() == ec::weekday{w}[ec::last])) { o.tok("accessor-wrong"); }
+        });
+        {
+            auto x = sc::year_month_weekday_last{sc::year{y}, sc::month{m}, sc::weekday{w}[sc::last]};
+            ref.tok("ok").b(x.ok()).num(cnt(static_cast<sc::sys_days>(x))).num(cnt(static_cast<sc::local_days>(x)));
+        }
+        return true;
+    }
+    if (op == "ymwdl_ok") {
+        auto y = static_cast<int>(in.num()); auto m = static_cast<unsigned>(in.num()); auto w = static_cast<unsigned>(in.num());
+        guarded(impl, [&](Out& o) { o.tok("ok").b(ec::year_month_weekday_last{ec::year{y}, ec::month{m}, ec::weekday{w}[ec::last]}.ok()); });
+        ref.tok("ok").b(sc::year_month_weekday_last{sc::year{y}, sc::month{m}, sc::weekday{w}[sc::last]}.ok());
+        return true;
+    }
+    if (op == "days_any") {
+        auto y = static_cast<int>(in.num()); auto m = static_cast<unsigned>(in.num()); auto d = static_cast<unsigned>(in.num());
+        guarded(impl, [&](Out& o) {
+            auto x = ec::year_month_day{ec::year{y}, ec::month{m}, ec::day{d}};
+            o.tok("ok").num(cnt(static_cast<ec::sys_days>(x))).num(cnt(static_cast<ec::local_days>(x)));
+        });
+        {
+            auto x = sc::year_month_day{sc::year{y}, sc::month{m}, sc::day{d}};
+            ref.tok("ok").num(cnt(static_cast<sc::sys_days>(x))).num(cnt(static_cast<sc::local_days>(x)));
+        }
+        return true;
+    }
+    if (op == "eq_all") {
+        int a[4]; int b[4];
+        for (auto& v : a) { v = static_cast<int>(in.num()); }
+        for (auto& v : b) { v = static_cast<int>(in.num()); }
+        guarded(impl, [&](Out& o) { eq_all<E>(o, a, b); });
+        eq_all<S>(ref, a, b);
+        return true;
+    }
+    if (op == "slash") {
+        auto y = static_cast<int>(in.num()); auto m = static_cast<unsigned>(in.num()); auto d = static_cast<unsigned>(in.num());
+        guarded(impl, [&](Out& o) { slash<E>(o, y, m, d); });
+        slash<S>(ref, y, m, d);
         return true;
     }
     return false;
